@@ -259,6 +259,7 @@ class CFG:
         self._used: Optional[Set[str]] = None
         self._flags: Dict[str, tuple] = {}
         self._decided = None
+        self._table_alias: Dict[str, list] = {}
         self.nodes: List[Node] = []
         self._cur_handler: Optional[HandlerInfo] = None
         self.entry = self._new("entry")
@@ -658,6 +659,12 @@ class CFG:
                 self._flags = self._drop_flags(saved, stored)
         frag = self._stmt_inner(s, ctxs)
         self._flags = self._drop_flags(self._flags, self._stores(s, deep=True))
+        for nm_ in self._stores(s, deep=True):
+            self._table_alias.pop(nm_, None)
+        if self.inliner is not None and isinstance(s, ast.Assign) and len(s.targets) == 1 and isinstance(s.targets[0], ast.Name):
+            cands = self._table_functions(s.value)
+            if cands:
+                self._table_alias[s.targets[0].id] = cands
         if isinstance(s, ast.Assign) and len(s.targets) == 1 and isinstance(s.targets[0], ast.Name) \
                 and isinstance(s.value, (ast.Compare, ast.BoolOp)) or (
                 isinstance(s, ast.Assign) and len(s.targets) == 1 and isinstance(s.targets[0], ast.Name)
@@ -963,6 +970,47 @@ class CFG:
             return out
         return handler_types(h)
 
+    def _table_functions(self, v: ast.AST) -> Optional[list]:
+        """`TABLE[key]` / `TABLE.get(key)` where TABLE is a module- or class-level dict display whose values all name
+        functions unknown to the reference tree: those functions (a call through the result is one of them)."""
+        base = None
+        if isinstance(v, ast.Subscript):
+            base = v.value
+        elif isinstance(v, ast.Call) and isinstance(v.func, ast.Attribute) and v.func.attr == "get" and v.args:
+            base = v.func.value
+        if base is None or self.inliner is None:
+            return None
+        rfi = self._resolve_fi()
+        d = self.inliner.P.dict_literal(rfi, base)
+        if d is None and isinstance(base, ast.Attribute) and isinstance(base.value, ast.Name):
+            # attribute of a local helper object: look the class attribute up
+            m = self.inliner._local_instance_method(rfi, ast.Attribute(value=base.value, attr="__init__", ctx=ast.Load()))
+            ci = m.cls if m is not None else None
+            if ci is not None:
+                for c in ci.mro:
+                    if isinstance(c.attrs.get(base.attr), ast.Dict):
+                        d = c.attrs[base.attr]
+                        rfi = m
+                        break
+        if d is None or not d.values or len(d.values) > 12:
+            return None
+        out = []
+        for val in d.values:
+            dn = dotted(val)
+            if dn is None:
+                return None
+            f = None
+            if rfi.cls is not None and "." not in dn and dn in rfi.cls.methods:
+                f = rfi.cls.methods[dn]            # unbound method named in the class body
+            else:
+                kind, obj = self.inliner.P.resolve_dotted(rfi.module, dn, rfi)
+                if kind == "func":
+                    f = obj
+            if f is None or not self.inliner.is_new(f):
+                return None
+            out.append(f)
+        return out
+
     def _try_unroll(self, s, ctxs) -> Optional[Frag]:
         """`for K, V in TABLE.items(): BODY` over a small module-level constant dict / tuple / list display:
         BODY once per entry with the loop variables replaced by the entry's expressions (dispatch tables)."""
@@ -1084,6 +1132,20 @@ class CFG:
         while True:
             sites = [c for c in unconditional_calls(e) if id(c) not in done]
             chosen = None
+            # a call through a local that holds an entry of a dispatch table: one of the entries runs
+            for site in sites:
+                call_ = site.value if isinstance(site, (ast.Await, ast.YieldFrom)) else site
+                if isinstance(call_, ast.Call) and isinstance(call_.func, ast.Name) and call_.func.id in self._table_alias \
+                        and not isinstance(site, ast.YieldFrom) and len(self._inline_stack) < 4:
+                    fr_, ret_ = self._dispatch_inline(site, call_, self._table_alias[call_.func.id], ctxs)
+                    if fr_ is not None:
+                        frags.append(fr_)
+                        e = replace_node(e, site, ast.copy_location(ast.Name(id=ret_, ctx=ast.Load()), site))
+                        chosen = "dispatched"
+                        break
+                    done.add(id(site))
+            if chosen == "dispatched":
+                continue
             for site in sites:
                 usage = "yieldfrom" if isinstance(site, ast.YieldFrom) else "value"
                 t = self.inliner.target(self._resolve_fi(), site, self._inline_stack, usage)
@@ -1096,7 +1158,8 @@ class CFG:
             site, t = chosen
             pre, body, ret = self.inliner.instantiate(self.fi, t, site, self._names_used(), want_ret=True)
             self.inlined_bodies.append(list(pre) + list(body))
-            blk = InlineBlock(body, ret, t.qualname, "call", getattr(site, "lineno", 0))
+            # an inlined constructor: the value of the call is the synthetic object, __init__ returns nothing
+            blk = InlineBlock(body, None if ret in self.inliner.obj_class else ret, t.qualname, "call", getattr(site, "lineno", 0))
             frags.append(self._seq([self._stmt_plain(p_, ctxs) for p_ in pre] + [self._inline_block(blk, ctxs)]))
             new = ast.copy_location(ast.Name(id=ret, ctx=ast.Load()), site)
             e = replace_node(e, site, new)
@@ -1196,6 +1259,43 @@ class CFG:
             s2.value = new_call
             return self._seq(frags), s2
         return self._seq(frags), new_call
+
+    def _dispatch_inline(self, site, call, cands, ctxs):
+        """Alternatives for `f(args)` where f is one of *cands*: a choice node with one inlined body per candidate."""
+        from .inline import InlineBlock
+        import copy as _copy
+        self.inliner.count += 1
+        ret = "__ret_dispatch_%d" % self.inliner.count
+        self._names_used().add(ret)
+        choice = self._new("stmt", None, ctxs, label="dispatch")
+        choice.lineno = getattr(site, "lineno", 0)
+        join = self._new("stmt", None, ctxs, label="dispatch-end")
+        join.lineno = choice.lineno
+        built = 0
+        for t in cands:
+            if t.qualname in self._inline_stack:
+                continue
+            a = t.node.args
+            if a.vararg or a.kwarg or t.is_async != isinstance(site, ast.Await):
+                return None, None
+            # the entries are plain functions (or unbound methods called with the object as first argument)
+            c2 = _copy.copy(call)
+            pseudo = _copy.copy(t)
+            pseudo.cls = None                    # bind `self` like any other parameter
+            pseudo.decorators = []
+            pre, body, r_i = self.inliner.instantiate(self.fi, pseudo, c2, self._names_used(), want_ret=True)
+            self.inlined_bodies.append(list(pre) + list(body))
+            blk = InlineBlock(body, r_i, t.qualname, "call", choice.lineno)
+            fr = self._seq([self._stmt_plain(p_, ctxs) for p_ in pre] + [self._inline_block(blk, ctxs)])
+            asg = self._stmt_plain(ast.Assign(targets=[ast.Name(id=ret, ctx=ast.Store())], value=ast.Name(id=r_i, ctx=ast.Load()),
+                                              lineno=choice.lineno, col_offset=0), ctxs)
+            fr = self._seq([fr, asg])
+            self._edge(choice, fr.entry, "n")
+            self._connect(fr.outs, join)
+            built += 1
+        if not built:
+            return None, None
+        return Frag(choice, [(join, "n")]), ret
 
     def _inline_block(self, blk, ctxs) -> Frag:
         ictx = InlineCtx(blk.ret, blk.callee)
